@@ -73,6 +73,28 @@ func ResourcesUniverse(level string) *Universe {
 		collection("cTrString", "cTrStringId", trs, ent, false)
 		collection("cTrInt64", "cTrInt64Id", tri, ent, false)
 	}
+	// REST methods that take query parameters of their own (all optional / defaulted, so that a call
+	// may carry an empty query) and paging on get_all
+	{
+		pc := collection("cParams", "cParamsId", P(String), ent, false)
+		withParams := map[string][]*Field{
+			"get":          {Opt("viewer", P(String)), Opt("depth", P(Int32))},
+			"get_all":      {Opt("filter", P(String))},
+			"create":       {Opt("dryRun", P(Bool))},
+			"update":       {Opt("reason", P(String))},
+			"delete":       {Opt("force", P(Bool)), Opt("tags", ArrayOf(P(String)))},
+			"batch_get":    {Opt("fieldsOf", e3)},
+			"batch_delete": {Opt("force", P(Bool))},
+		}
+		for _, m := range pc.Methods {
+			if m.Kind == "REST_METHOD" {
+				m.Params = withParams[m.Name]
+				if m.Name == "get_all" {
+					m.Paging = true
+				}
+			}
+		}
+	}
 	simple("sRoot", ent)
 	parentC := Segment{Name: "cString", KeyName: "cStringId", KeyType: P(String)}
 	collection("subColl", "subCollId", P(Int64), ent, false, parentC)
